@@ -77,7 +77,8 @@ class World(BaseWorld):
             elif k == 'ma':
                 ops.append({'op': k, 'rank': ro.randrange(1, 5), 'space': ro.choice(['Real', 'Fourier']),
                             'seq': [ro.choice('fr') for _ in range(ro.randrange(1, 4))],
-                            'layout': ro.choice(['C', 'C', 'C', 'F', 'T', 'block'])})
+                            'layout': ro.choice(['C', 'C', 'C', 'F', 'T', 'block']),
+                            'typenames': ro.choice(['letters', 'letters', 'int_perm', 'int_rev', 'words'])})
             elif k == 'matrix':
                 ops.append({'op': k})
         return {'config': {}, 'ops': ops}
@@ -235,7 +236,17 @@ class World(BaseWorld):
                 rs = np_rng(seed, 'ma', step)
                 data = rs.uniform(-1, 1, size=(N, rk, rk))
                 data = (data + np.transpose(data, (0, 2, 1))) / 2.0
-                types = list('ABCD'[:rk])
+                tn = op.get('typenames', 'letters')
+                if tn == 'int_perm':
+                    types = [(i + 1) % rk for i in range(rk)]          # integer names that are a permutation of the positions
+                    ctx.probe('ma_integer_type_names')
+                elif tn == 'int_rev':
+                    types = list(range(rk))[::-1]
+                    ctx.probe('ma_integer_type_names')
+                elif tn == 'words':
+                    types = ['site-%d' % i for i in range(rk)]
+                else:
+                    types = list('ABCD'[:rk])
                 # the user's data array may have any memory layout: C order, Fortran order, a (rank, rank, length) stack viewed
                 # transposed, a sub-block of a larger array -- all are legal ndarray inputs with the same values
                 lay = op.get('layout', 'C')
